@@ -6,6 +6,7 @@
 package ref
 
 import (
+	"bytes"
 	"encoding/json"
 	"math"
 	"strconv"
@@ -216,8 +217,7 @@ func writeJSON(sb *strings.Builder, v interface{}) {
 	case float64:
 		sb.WriteString(NumString(x))
 	case string:
-		b, _ := json.Marshal(x)
-		sb.Write(b)
+		sb.WriteString(jsonString(x))
 	case *Func, impl.Fn:
 		sb.WriteString(`""`)
 	case []interface{}:
@@ -236,8 +236,7 @@ func writeJSON(sb *strings.Builder, v interface{}) {
 			if i > 0 {
 				sb.WriteByte(',')
 			}
-			b, _ := json.Marshal(k)
-			sb.Write(b)
+			sb.WriteString(jsonString(k))
 			sb.WriteByte(':')
 			writeJSON(sb, x[k])
 		}
@@ -278,4 +277,14 @@ func Norm(v interface{}) interface{} {
 		return out
 	}
 	return v
+}
+
+// jsonString is the JSON text of a string: quotes, backslashes and control
+// characters escaped, everything else (including < > &) as it is.
+func jsonString(x string) string {
+	var b bytes.Buffer
+	e := json.NewEncoder(&b)
+	e.SetEscapeHTML(false)
+	e.Encode(x)
+	return strings.TrimRight(b.String(), "\n")
 }
